@@ -410,6 +410,49 @@ var Corpus = []Scenario{
 		x.do(Action{Op: "SetStrategy", Key: Key})
 		x.D.Converge(60)
 	}},
+	{"canary-narrowing-template", []string{"C04", "C03", "C02"}, func(x Scn) {
+		// the new template fits fewer nodes than the active one
+		sc := CanaryStrategy("1")
+		sc.CMode, sc.CDuration, sc.CNoRestarts = "manual", 0, -1
+		x.D.Strategy[Key] = sc
+		x.do(Action{Op: "NodeAdd", N: "n1", V: "A,B,C", W: "c;z=z1"})
+		x.do(Action{Op: "NodeAdd", N: "n2", V: "A,B,C", W: "c;z=z1"})
+		x.do(Action{Op: "NodeAdd", N: "n3", V: "A,B", W: "c;z=z1"})
+		x.do(Action{Op: "NodeAdd", N: "n4", V: "A,B", W: "c;z=z1"})
+		x.do(Action{Op: "CreateEDS", Key: Key, T: "A"})
+		x.D.Converge(12)
+		x.Template("C")
+		x.Rounds(6)
+		x.Ann("c-valid", "C")
+		x.D.Converge(50)
+	}},
+	{"canary-strategy-removed", []string{"C16", "C14", "C02"}, func(x Scn) {
+		// the user removes spec.strategy.canary while a canary is running
+		x.Setup(3, "A", CanaryStrategy("1"))
+		x.Template("B")
+		x.AwaitCanaryPods(8)
+		x.D.Strategy[Key] = BaseStrategy()
+		x.do(Action{Op: "SetStrategy", Key: Key})
+		// the canary replica set syncs before the ExtendedDaemonSet is reconciled again
+		x.Tick(1)
+		x.ERS("B")
+		x.ERS("A")
+		x.Rounds(4)
+		x.D.Converge(40)
+		// and with the ExtendedDaemonSet reconciled first
+		x.D.Strategy[Key] = CanaryStrategy("1")
+		x.do(Action{Op: "SetStrategy", Key: Key})
+		x.Rounds(2)
+		x.Template("C")
+		x.AwaitCanaryPods(8)
+		x.D.Strategy[Key] = BaseStrategy()
+		x.do(Action{Op: "SetStrategy", Key: Key})
+		x.D.Converge(40)
+		x.K("KFail", "n1", 1, "")
+		x.K("KFail", "n2", 1, "")
+		x.K("KFail", "n3", 1, "")
+		x.D.Converge(40)
+	}},
 	{"canary-node-removed", []string{"C15", "C04", "C02"}, func(x Scn) {
 		x.Setup(4, "A", CanaryStrategy("2"))
 		x.Template("B")
